@@ -121,6 +121,16 @@ func (p *Program) VerifyFunc(c *Contract) (res *FuncResult) {
 		vtypes[nm] = prm.Type()
 		res.ParamNames = append(res.ParamNames, nm)
 	}
+	for _, g := range c.Ghosts {
+		gt := basicTypeByName(g[1])
+		if gt == nil {
+			res.Rejected = "ghost " + g[0] + ": unsupported type " + g[1]
+			return
+		}
+		gv := ex.symVal(st, "gh_"+g[0], gt, 0)
+		vars[g[0]] = gv
+		vtypes[g[0]] = gt
+	}
 	var bind []Val
 	for _, fv := range fn.FreeVars {
 		bind = append(bind, ex.symVal(st, "fv_"+fv.Name(), fv.Type(), 0))
